@@ -8,7 +8,9 @@
           c06-offline-never-online  : the first notification sent for a (MAC, address) binding that was
                                       created by a frame says offline (not a recorded finding)
    t6c <cfg> <t0> <ips> <op>...      : the discipline (R N / B N pairs, P, M, U, O, C, L); observation = (address/online)
-        pairs per unit; column 2 = expectation derived from the changes of the C04 reference model. *)
+        pairs per unit; column 2 = expectation derived from the changes of the C04 reference model.
+   t6n <cfg> <t0> <op>...            : NO implicit drain (outside the discipline): the channel fills up to its 128 slots;
+        observation = every op's output (the D ops carry the drained notifications) and the final channel length. *)
 From PV Require Import Base.Text Model.Tables Model.TablesShow Model.TablesKnown Spec.HostTracking Spec.HostTrackingNotif.
 Open Scope string_scope.
 Open Scope N_scope.
@@ -132,8 +134,27 @@ Definition ips_of_tok (s : string) : option (list ip) :=
      | t :: r => match ip_of_tok t, go r with Some i, Some is => Some (i :: is) | _, _ => None end
      end) (Text.split "+"%char s).
 
+Fixpoint run6n (c : cfg) (s : state) (ops : list pop) : list string :=
+  match ops with
+  | [] => ["len=" ++ dec_of_N (N.of_nat (List.length (chan s)))]
+  | p :: r => let (s1, o) := step c s (resolve s p) in show_out o :: run6n c s1 r
+  end.
+
 Definition dispatch (kind : string) (args : list string) : string :=
-  if String.eqb kind "t6" then
+  if String.eqb kind "t6n" then
+    match args with
+    | ctok :: t0 :: optoks =>
+        match cfg_of_tok ctok, Z_of_dec t0, ops_of_toks optoks with
+        | Some c, Some t0, Some ops0 =>
+            match new_session c t0 with
+            | Ok s0 => out3 (join ";" (run6n c s0 (map (debyte c) ops0))) "-" "-"
+            | _ => out3 "panic" "-" "-"
+            end
+        | _, _, _ => BADARGS
+        end
+    | _ => BADARGS
+    end
+  else if String.eqb kind "t6" then
     match args with
     | ctok :: t0 :: optoks =>
         match cfg_of_tok ctok, Z_of_dec t0, ops_of_toks optoks with
